@@ -380,9 +380,13 @@ class Lexer():
                 if c == b'\\':
                     # Escape character.
                     num_m = re.match(br'\d{1,3}', s[i+1:])
+                    hex_m = re.match(br'x[0-9a-fA-F]{2}', s[i+1:])
                     if num_m:
                         c = bytes([int(num_m.group(0))])
                         i += len(num_m.group(0))
+                    elif hex_m:
+                        c = bytes([int(hex_m.group(0)[1:], 16)])
+                        i += 3
                     else:
                         next_c = s[i+1:i+2]
                         if next_c in _STRING_ESCAPES:
